@@ -187,11 +187,13 @@ def run_job(job, build):
                     if getattr(f, "hidden", False):
                         continue
                     allowed[preferred(f)] = f
+            # subcommand names of the active level *or of a level enclosing it* (the property allows both)
             cmds_here = []
-            for f in active.fields:
-                if isinstance(f, G.Cmds):
-                    for c in f.cmds:
-                        cmds_here.append(c)
+            for level in lv:
+                for f in level.fields:
+                    if isinstance(f, G.Cmds):
+                        for c in f.cmds:
+                            cmds_here.append(c)
             comp = COMPLETER.get(g.name)
             for subst, pretty in cands:
                 if subst == "":
@@ -233,6 +235,9 @@ def run_job(job, build):
                             break
                     if hit is None:
                         clean = False
+                        break
+                    if id(hit) in given and not (hit.kind == "arg" and hit.arity in ("many", "some", "last")) and hit.kind != "count":
+                        clean = False  # a single-use item given twice: the prefix is not a prefix of any sentence
                         break
                     given.add(id(hit))
                     if hit.kind == "arg":
